@@ -97,3 +97,14 @@ pub fn vp_enumerate<T>(v: Vec<T>) -> (r: VpIter<(usize, T)>)
 /// rule R9: `v.into_iter()` handed to a generic `impl Iterator` parameter
 #[verifier::external_body]
 pub fn vp_vec_into_iter<T>(v: Vec<T>) -> (r: VpIter<T>) ensures r.rest() == v@ { unimplemented!() }
+impl<T> VpIter<T> {
+    #[verifier::external_body]
+    pub fn enumerate(self) -> (r: VpIter<(usize, T)>)
+        ensures r.rest().len() == self.rest().len(), forall|k: int| 0 <= k < self.rest().len() ==> (#[trigger] r.rest()[k]).0 == k && r.rest()[k].1 == self.rest()[k],
+    { unimplemented!() }
+}
+/// rule R9: `LIST.contains(&s)` on a constant list of string literals
+#[verifier::external_body]
+pub fn vp_str_list_contains<const N: usize>(list: &[&str; N], s: &str) -> (r: bool)
+    ensures r == (exists|k: int| 0 <= k < N && (#[trigger] list@[k])@ == s@),
+{ unimplemented!() }
